@@ -5,7 +5,7 @@ import itertools
 
 from ..core import AnalysisError, dotted, walk_no_nested, FuncTypes
 from ..cfg import CFG, cond_guards
-from ..util import calls_in, local_defs, const_val, NOVAL, if_chain, ends_abruptly, names_in, compare_eq_const
+from ..util import calls_in, local_defs, const_val, NOVAL, if_chain, ends_abruptly, names_in, compare_eq_const, depends_on, last_attr
 from ..consteval import Evaluator, Abstract, AbstractEntry, UNKNOWN, reachable_arms
 from .. import mergefacts as mf
 from ..schema import NbSchema
@@ -89,7 +89,7 @@ class BlockChecker:
         return assigned
 
 
-def run(ctx):
+def _run_base(ctx):
     repo, cg = ctx.repo, ctx.cg
     ctx.rule('R03.1', 'chunk-type switch of _merge_lists is exhaustive over the 36 (local,remote) chunk types: no aborting arm reachable, '
              'no use-before-assignment on any reachable path', floor=36, floor_what='36 chunk-type pairs')
@@ -542,3 +542,138 @@ def strategy_table(ctx):
         if UNKNOWN in v:
             raise AnalysisError('strategy for %s is not a constant the analyser can bound' % k)
     return table, transients
+
+
+# ------------------------------------------------------------------------------------------------- R03.10
+BASEISH = {'base', 'outputs', 'attachments', 'base_cells'}
+EXIST_LETTERS = set('PR')
+
+
+def _action_strategies(repo):
+    """action constant -> strategy constants whose tryresolve arm sets it."""
+    tr = repo.func(mf.DEC + ':MergeDecisionBuilder.tryresolve')
+    out = {}
+    for n in walk_no_nested(tr):
+        if isinstance(n, ast.If):
+            for test, body, nd in if_chain(n)[0]:
+                ce = compare_eq_const(test)
+                if not ce or ce[0] != 'strategy':
+                    continue
+                for st in body:
+                    if isinstance(st, ast.Assign) and dotted(st.targets[0]) == 'action' and isinstance(const_val(st.value), str):
+                        out.setdefault(const_val(st.value), set()).update(x for x in ce[1] if isinstance(x, str))
+    return out
+
+
+def base_lookups_by_diff_key(ctx, rule):
+    """A base container is indexed with a key taken from a diff/decision only where that key is known to exist in base.
+
+    Keys of diff entries name *existing* items for patch/remove/replace/removerange, but an `add` key is absent from the
+    base dict and an `addrange` key may equal len(base) (insertion at the end).  A lookup base[key] with such a key raises
+    KeyError/IndexError and aborts the merge.  Accepted evidence, per lookup site:
+      bound   -- a dominating test `key < len(B)` / `key in B` (also as the test of an enclosing conditional expression);
+      chunk   -- the lookup sits in an arm selected by chunk types that all contain a patch or a removal (P/R) of the item;
+      schema  -- the lookup sits in a resolve_action arm for an action that tryresolve only emits for strategies which the
+                 strategy table attaches to schema-*required* fields (execution_count of code cells / execute_result
+                 outputs, nbformat_minor)."""
+    from ..schema import NbSchema
+    repo, cg = ctx.repo, ctx.cg
+    sch = NbSchema(5)
+    table, _tr = strategy_table(ctx)
+    act2strat = _action_strategies(repo)
+    n_sites = 0
+    for fid, fn in sorted(repo.functions.items()):
+        if not fid.startswith(('nbdime.merging.generic:', 'nbdime.merging.strategies:', 'nbdime.merging.decisions:')):
+            continue
+        if '__unused__' in fid or fid.startswith('nbdime.merging.decisions:build_diffs') :
+            continue
+        params = {a.arg for a in fn.args.args + fn.args.kwonlyargs}
+        defs = local_defs(fn)
+        g = None
+        for n in walk_no_nested(fn):
+            if not (isinstance(n, ast.Subscript) and isinstance(n.ctx, ast.Load) and isinstance(n.value, ast.Name) and
+                    n.value.id in BASEISH and n.value.id in params and not isinstance(n.slice, ast.Slice)):
+                continue
+            k = n.slice
+            keyish = depends_on(fn, k, lambda x: (isinstance(x, ast.Attribute) and x.attr == 'key') or
+                                (isinstance(x, ast.Call) and last_attr(x) == 'bundle_decisions_by_index'), defs)
+            chunk_key = isinstance(k, ast.Name) and fid.endswith(':_merge_lists')
+            if keyish is None and not chunk_key:
+                continue
+            n_sites += 1
+            if g is None:
+                g = CFG(fn)
+            st = repo.stmt_of(n)
+            guards = list(cond_guards(g, st))
+            # enclosing conditional expressions / and-chains inside the statement
+            p = repo.parent(n)
+            child = n
+            while p is not None and not isinstance(p, ast.stmt):
+                if isinstance(p, ast.IfExp):
+                    if child is p.body:
+                        guards.append((p.test, True))
+                    elif child is p.orelse:
+                        guards.append((p.test, False))
+                child, p = p, repo.parent(p)
+            B, kname = n.value.id, ast.unparse(k)
+            evidence = None
+            for t, pol in guards:
+                for c in ast.walk(t):
+                    if isinstance(c, ast.Compare) and len(c.ops) == 1 and pol:
+                        l, r = ast.unparse(c.left), ast.unparse(c.comparators[0])
+                        if isinstance(c.ops[0], ast.Lt) and l == kname and r == 'len(%s)' % B:
+                            evidence = 'bound: %s' % ast.unparse(c)
+                        if isinstance(c.ops[0], ast.Gt) and r == kname and l == 'len(%s)' % B:
+                            evidence = 'bound: %s' % ast.unparse(c)
+                        if isinstance(c.ops[0], ast.In) and l == kname and r == B:
+                            evidence = 'bound: %s' % ast.unparse(c)
+            if evidence is None:
+                for t, pol in guards:
+                    if not pol or not isinstance(t, (ast.Compare, ast.BoolOp)):
+                        continue
+                    for c in ([t] if isinstance(t, ast.Compare) else [v for v in t.values if isinstance(v, ast.Compare)] if isinstance(t.op, ast.And) else []):
+                        if len(c.ops) == 1 and isinstance(c.left, ast.Name) and 'chunktype' in c.left.id:
+                            consts = [x.value for x in ast.walk(c.comparators[0]) if isinstance(x, ast.Constant) and isinstance(x.value, str)]
+                            if isinstance(c.ops[0], (ast.In, ast.Eq)) and consts and all(EXIST_LETTERS & set(x) for x in consts):
+                                evidence = 'chunk: %s selects only chunks that patch/remove the item' % ast.unparse(c)
+            if evidence is None and fid.endswith(':resolve_action'):
+                acts = set()
+                for t, pol in guards:
+                    if pol:
+                        for c in ast.walk(t):
+                            if isinstance(c, ast.Compare) and len(c.ops) == 1 and isinstance(c.left, ast.Name) and c.left.id == 'a':
+                                got = [x.value for x in ast.walk(c.comparators[0]) if isinstance(x, ast.Constant) and isinstance(x.value, str)]
+                                acts = set(got) if not acts else (acts & set(got))
+                if acts:
+                    bad = []
+                    paths = []
+                    for a in sorted(acts):
+                        for strat in sorted(act2strat.get(a, ())):
+                            for path, strats in sorted(table.items()):
+                                if strat in strats:
+                                    parent, _, field = path.rpartition('/')
+                                    alts = [alt for alt in sch.at(parent or '/') if isinstance(alt, dict) and field in alt.get('properties', {})]
+                                    req = bool(alts) and all(field in alt.get('required', []) for alt in alts)
+                                    paths.append(path)
+                                    if not req:
+                                        bad.append((a, strat, path))
+                    if paths and not bad:
+                        evidence = 'schema: action(s) %s only arise at required fields %s' % (sorted(acts), sorted(set(paths)))
+                    elif bad:
+                        ctx.inst(rule, fid, '%s  [action %s via strategy %r at %s]' % (repo.norm(n), bad[0][0], bad[0][1], bad[0][2]), False,
+                                 'strategy %r is attached to %s, which the notebook schema does not require: when both sides ADD the key it is absent '
+                                 'from base and %s raises KeyError in apply_decisions' % (bad[0][1], bad[0][2], ast.unparse(n)), n)
+                        continue
+            ctx.inst(rule, fid, repo.norm(n), evidence is not None,
+                     evidence if evidence else
+                     '%s is a key taken from diff entries / decisions: an add key is absent from %s and an addrange key may equal len(%s) '
+                     '(insertion at the end) -- the lookup raises %s and aborts the merge' % (
+                         kname, B, B, 'KeyError' if B == 'attachments' else 'IndexError/KeyError'), n)
+    return n_sites
+
+
+def run(ctx):
+    ctx.rule('R03.10', 'a base container is indexed with a diff/decision key only where the key is known to exist in base '
+             '(bound test, patch/remove chunk, or schema-required field)', floor=5)
+    _run_base(ctx)
+    base_lookups_by_diff_key(ctx, 'R03.10')
